@@ -527,7 +527,8 @@ func applyEdit(r *Rand, doc M, kind int) string {
 		if len(parents) > 0 {
 			p := pick(r, parents)
 			pp := defs[p].(M)["properties"].(M)
-			child := "Z" + p + fmt.Sprint(r.Intn(3))
+			// (the offending definition sorts after or before the regular ones: rules walk definitions in sorted order)
+			child := pick(r, []string{"Z", "Z", "0"}) + p + fmt.Sprint(r.Intn(3))
 			cp := M{}
 			for i, k := range sortedKeys(pp) {
 				if i < 3 {
@@ -539,7 +540,8 @@ func applyEdit(r *Rand, doc M, kind int) string {
 		}
 	case 11: // circular ancestry
 		sfx := fmt.Sprint(r.Intn(3))
-		a, b := "Y1"+sfx, "Y2"+sfx
+		pre := pick(r, []string{"Y", "Y", "1"})
+		a, b := pre+"1"+sfx, pre+"2"+sfx
 		defs[a] = M{"allOf": []any{M{"$ref": "#/definitions/" + b}, M{"type": "object", "properties": M{"ya": M{"type": "string"}}}}}
 		defs[b] = M{"allOf": []any{M{"$ref": "#/definitions/" + a}, M{"type": "object", "properties": M{"yb": M{"type": "string"}}}}}
 		return "circular"
